@@ -75,6 +75,12 @@ func (e *c12Env) intClasses(max int64) []int64 {
 			}
 		}
 	}
+	if max >= 1000 {
+		// quartile boundaries, so that a draw re-used against a weight table is still covered
+		for k := int64(1); k <= 3; k++ {
+			set[k*max/4-1], set[k*max/4] = true, true
+		}
+	}
 	if max <= 16 {
 		for i := int64(0); i < max; i++ {
 			set[i] = true
@@ -147,6 +153,10 @@ func c12Configs() []c12Cfg {
 		c12Subnet("203.0.113.0/28", 2, "Prefix_Transport", prefix.GetLong, 80), c12Subnet("203.0.113.64/28", 0, "Prefix_Transport", prefix.TLSClientHello, 443),
 	}
 	one := []Subnet{c12Subnet("198.51.100.0/30", 1, "Min_Transport", 0, 0), c12Subnet("203.0.113.0/30", 1, "Prefix_Transport", prefix.HTTPResp, 8080)}
+	four := []Subnet{
+		c12Subnet("198.51.100.0/29", 1, "Min_Transport", 0, 0), c12Subnet("198.51.100.8/29", 1, "Min_Transport", 0, 0), c12Subnet("198.51.100.16/29", 1, "Min_Transport", 0, 0), c12Subnet("198.51.100.24/29", 1, "Min_Transport", 0, 0),
+		c12Subnet("203.0.113.0/29", 1, "Prefix_Transport", prefix.GetLong, 80), c12Subnet("203.0.113.8/29", 1, "Prefix_Transport", prefix.PostLong, 80), c12Subnet("203.0.113.16/29", 1, "Prefix_Transport", prefix.HTTPResp, 80), c12Subnet("203.0.113.24/29", 2, "Prefix_Transport", prefix.DNSOverTCP, 53),
+	}
 	excl := []Subnet{c12Subnet("192.122.190.0/24", 0, "", 0, 0), c12Subnet("141.219.0.0/16", 0, "", 0, 0), c12Subnet("35.8.0.0/16", 0, "", 0, 0)}
 	var out []c12Cfg
 	for _, auth := range []bool{false, true} {
@@ -155,8 +165,8 @@ func c12Configs() []c12Cfg {
 		}
 	}
 	for _, ov := range []string{"none", "rand"} {
-		for si, ss := range [][]Subnet{nil, one, three, lastZero} {
-			for _, pc := range []float64{0, 50, 100, 150} {
+		for si, ss := range [][]Subnet{nil, one, three, lastZero, four} {
+			for _, pc := range []float64{0, 25, 50, 100, 150} {
 				for ei, ex := range [][]Subnet{nil, excl} {
 					out = append(out, c12Cfg{name: fmt.Sprintf("auth=true;ov=%s;enforce=on;subnets=%d;pct=%v;excl=%d", ov, si, pc, ei), auth: true, overrides: ov, enforce: true, subnets: ss, exclusions: ex, pMin: pc, pPref: pc})
 				}
@@ -238,6 +248,9 @@ func VerifC12Main() {
 	substitutable := map[string]bool{}
 	for ci, cfg := range cfgs {
 		for _, rq := range reqs {
+			if cfg.enforce && !a.Thorough() && (rq.forged || rq.gen == 1) {
+				continue // quick: forged fields and the non-randomising generation are crossed with the enforce=off configurations only
+			}
 			n++
 			if n%a.ShardN != a.ShardI {
 				continue
